@@ -99,13 +99,37 @@ Definition usw_write (maxu : Z) (sclosed : bool) (inp : list N) : Z * sw_err * l
               else (0, SwShortBuffer, [])                         (* "we are not allowed to" split *)
        end.
 
-(* client.RouteUDP (internal/client/piper.go), uplink of the UDP relay around the Stream interface:
-     data := make([]byte, 8192); i, addr, err := localConn.ReadFrom(data); ... stream.Write(data[:i])
+(* The UDP relays around the Stream interface.
+   client.RouteUDP (internal/client/piper.go), uplink:
+     data := make([]byte, SIZE); i, addr, err := localConn.ReadFrom(data); ... stream.Write(data[:i])
    ReadFrom into a buffer shorter than the datagram keeps what fits and silently discards the rest
-   (Linux recvfrom without MSG_TRUNC).  8192 is a literal in the source; the relay driver measures it. *)
-Definition relay_buf : N := 8192%N.
-Definition route_udp_up (maxu : Z) (d : list N) : Z * sw_err * list (list N) :=
-  usw_write maxu false (firstn (N.to_nat relay_buf) d).
+   (Linux recvfrom without MSG_TRUNC).  SIZE is a literal in the source (the relay driver measures its
+   effect): 65535 since commit e32244c, 8192 before. *)
+Definition relay_up (bufsize : N) (maxu : Z) (d : list N) : Z * sw_err * list (list N) :=
+  usw_write maxu false (firstn (N.to_nat bufsize) d).
+Definition relay_buf : N := 65535%N.
+Definition relay_buf_prefix : N := 8192%N.
+Definition route_udp_up : Z -> list N -> Z * sw_err * list (list N) := relay_up relay_buf.
+
+(* downlink, one iteration of the relay goroutine: buf := make([]byte, SIZE); n, err := stream.Read(buf);
+   an error ends the goroutine (stream closed, mapping deleted: None), otherwise buf[:n] is sent to
+   the application as one datagram *)
+Definition relay_down (bufsize : N) (p : dg) : dg * option (list N) :=
+  match dg_read p (N.to_nat bufsize) with
+  | (p', RdData x) => (p', Some x)
+  | (p', _) => (p', None)
+  end.
+Definition route_udp_down : dg -> dg * option (list N) := relay_down relay_buf.
+
+(* server side (dispatcher.go serveSession): common.Copy(newStream, localConn) = Stream.ReadFrom(localConn);
+   one iteration on a datagram socket: read, er := r.Read(buf[frameHeaderLength : frameHeaderLength+maxStreamUnitWrite]),
+   then one frame with the bytes read.  An empty read makes obfuscate fail ("payload cannot be empty"):
+   nothing is sent and ReadFrom returns. *)
+Definition stream_read_from_dgram (maxu : Z) (d : list N) : list (list N) :=
+  match firstn (Z.to_nat maxu) d with
+  | [] => []
+  | f => [f]
+  end.
 
 (* ---------------------------------------------------------------------------------- *)
 (* Receive side of an unordered session: Session.streams as an association list.  An entry
